@@ -189,11 +189,8 @@ def gen_inlines(c, depth=0, allow_link=True, allow_break=True, n=None, allow_htm
             out.append(N('sp'))
         if it.kind == 'reflink' and not it.image and out and out[-1].kind == 'sp' and not c.canonical and not c.reflow and t.chance(12):
             # '!' and a code span directly before the bracket: the bracket still opens a link, not an image
-            if t.chance(128):
-                out.append(N('text', s='!'))
-                out.append(N('code', content='a', extra=0))
-            else:
-                out.append(N('text', s='!]'))           # '!' and a stray closing bracket: the next bracket still opens a link
+            out.append(N('text', s='!'))
+            out.append(N('code', content='a', extra=0))
         out.append(it)
         if it.kind == 'reflink' and it.rec is not None and it.form == 'shortcut' and not c.canonical and not c.reflow and t.chance(16):
             # a bracket that opens no link label does not stop a shortcut reference
